@@ -64,6 +64,19 @@ def cases(tier, seed):
 	yield {'taxa': G_S_S1, 'genomes': [1, 3, 2], 'dists': [.5, .5, .2]}
 	yield {'taxa': G_S_S1, 'genomes': [2, 3, 1], 'dists': [.2, .5, .5]}
 	yield {'taxa': G_S_S1 + [{'parent': None, 'thr': .9}], 'genomes': [1, 4], 'dists': [.5, .5]}
+	# structured families: genus > species (often without a threshold) > three subspecies, one genome in each, with
+	# thresholds and distances around each other (consensus above some matches, closest genome matching only higher up, ...)
+	thr_opts = [None, .05, .3, .5]
+	d_opts = [.02, .1, .2, .25, .4, .6]
+	for _ in range(500 if tier == 'quick' else 6000):
+		taxa = [{'parent': None, 'thr': rnd.choice(thr_opts)}, {'parent': 0, 'thr': rnd.choice(thr_opts)}]
+		for _k in range(3):
+			taxa.append({'parent': 1, 'thr': rnd.choice(thr_opts)})
+		if rnd.random() < .3:
+			taxa.append({'parent': 0, 'thr': rnd.choice(thr_opts)})
+		ng = rnd.choice([3, 3, 4])
+		genomes = [2, 3, 4] + [rnd.randrange(len(taxa))] * (ng - 3)
+		yield {'taxa': taxa, 'genomes': genomes, 'dists': [rnd.choice(d_opts) for _ in range(ng)]}
 	for _ in range(400 if tier == 'quick' else 8000):
 		nt = rnd.randrange(1, 7)
 		taxa = random_forest(rnd, nt)
